@@ -47,6 +47,7 @@ type Task struct {
 	req         func() // pending call for the simulator goroutine
 	prio        int
 	run         int // consecutive picks
+	instPicks   int // picks with progress since the task last blocked (spin detection)
 	LastSite    int
 	blockedAt   int
 	exited      bool
@@ -625,10 +626,10 @@ func (s *Sim) pick(c []*Task) *Task {
 				best = t
 			}
 		}
-		if best.run > fair*4 { // spinning task must not starve the rest
+		if best.instPicks > fair*4 { // a spinning task must not starve the rest
 			best.prio = s.pctLow
 			s.pctLow--
-			best.run = 0
+			best.instPicks = 0
 		}
 		return best
 	case StratRandom:
@@ -694,6 +695,11 @@ func (s *Sim) step() bool {
 	s.last = t
 	s.forced = nil
 	s.runTask(t)
+	if t.state == stBlocked {
+		t.instPicks = 0
+	} else if t.progress {
+		t.instPicks++
+	}
 	if t.forceSwitch {
 		s.instantSteps-- // a statement-level pre-emption is computation, not spinning
 		t.forceSwitch = false
